@@ -327,6 +327,13 @@ def _iter_next(ex, st, r):
                 return x
             ex.store(st, r.ext(('f', 2)), True)
         return _iter_next(ex, st, r.ext(('f', 1)))
+    if v.ty == 'Chunks':
+        base, i, n, size = v.f
+        if i >= n:
+            return none()
+        k = min(size, n - i)
+        ex.store(st, r, Agg('Chunks', (base, i + k, n, size)))
+        return some(Ref(base.addr, base.path, usize(i), usize(k)))
     if v.ty == 'OptionIter':
         o = v.f[0]
         ex.store(st, r, Agg('OptionIter', (none(),)))
@@ -455,6 +462,32 @@ def m_vec_push(ex, st, m, a):
     v = deref(ex, st, a[0])
     ex.store(st, a[0], Agg('Vec', v.f + (a[1],)))
     return UNIT
+
+
+def m_slice_chunks(ex, st, m, a):
+    r, k = a
+    if not k.concrete or k.v == 0:
+        raise Inconclusive('chunks with symbolic or zero size')
+    items, s0 = seq_items(ex, st, r)
+    return Agg('Chunks', (Ref(r.addr, r.path), s0, s0 + len(items), k.v))
+
+
+def m_vec_extend(ex, st, m, a):
+    """Vec::extend(iter): appends every item the iterator yields"""
+    it = a[1]
+    if isinstance(it, Ref):
+        it = m_into_iter(ex, st, None, [it])
+    elif isinstance(it, Agg) and it.ty in ('Vec', '[array]'):
+        it = m_into_iter(ex, st, None, [it])
+    ir = ex.alloc(st, it, 'extend-iter')
+    while True:
+        x = _iter_next(ex, st, ir)
+        if x.disc == 0:
+            return UNIT
+        v = deref(ex, st, a[0])
+        if len(v.f) > 100000:
+            raise Inconclusive('extend does not terminate')
+        ex.store(st, a[0], Agg('Vec', v.f + (x.payload['Some'][0],)))
 
 
 def m_vec_truncate(ex, st, m, a):
@@ -742,6 +775,9 @@ STD_MODELS = [
     (r'Vec::<.+>::with_capacity', m_vec_new),
     (r'Vec::<.+>::push', m_vec_push),
     (r'Vec::<.+>::truncate', m_vec_truncate),
+    (r'<Vec<.+> as Extend<.+>>::extend::<.+>', m_vec_extend),
+    (r'Vec::<.+>::extend::<.+>', m_vec_extend),
+    (r'core::slice::<impl \[.+\]>::chunks', m_slice_chunks),
     (r'Vec::<.+>::len', m_vec_len),
     (r'Vec::<.+>::reserve', m_vec_reserve),
     (r'(std::vec::|alloc::vec::)?from_elem::<.+>', m_vec_from_elem),
@@ -749,7 +785,7 @@ STD_MODELS = [
     (r'<Vec<.+> as AsRef<\[.+\]>>::as_ref', m_vec_deref),
     (r'<(Vec<.+>|\[.+\]) as (std::ops::)?Index(Mut)?<.+>>::index(_mut)?', m_index),
     (r'(std|core)::cmp::min::<usize>', m_min),
-    (r'<usize as Ord>::min', m_min),
+    (r'<usize as (?:std::cmp::|core::cmp::)?Ord>::min', m_min),
     (r'core::num::<impl u64>::(wrapping_mul|wrapping_add|wrapping_sub)', m_wrapping),
     (r'core::num::<impl usize>::(wrapping_mul|wrapping_add|wrapping_sub)', m_wrapping),
     (r'(core::panicking::panic\w*|std::rt::begin_panic::<.+>|core::panicking::assert_failed::<.+>|std::rt::panic_fmt|core::panicking::panic_fmt)', m_panic),
@@ -841,6 +877,7 @@ class RingDomain:
         self.name = name
         self.isz = z3.Function('isz_' + name, z3.IntSort(), z3.BoolSort())
         self.inv_facts = []      # (t, n)
+        self.inv_pcs = []        # path condition under which each inversion was made (parallel to inv_facts)
         self.counter = 0
         self.consts = consts or {}
         self.opaque = {}
@@ -956,6 +993,7 @@ class RingDomain:
                 return none()
             t = D.fresh('inv')
             D.inv_facts.append((t, x.e))
+            D.inv_pcs.append(list(st.pc))
             return opt_sym(b_not(z), FE(x.ty, t))
 
         def h_frob(ex, st, m, a):
